@@ -62,7 +62,7 @@ var Deliveries = []string{"one-read", "byte-at-a-time", "cut-at-5", "every-50th"
 
 type custom struct{}
 
-func (custom) GetHeaderName() string                          { return "X-My-FP" }
+func (custom) GetHeaderName() string                        { return "X-My-FP" }
 func (custom) GetHeaderValue(*http.Request) (string, error) { return "custom", nil }
 
 // Ref returns the admissible header values for a ClientHello record (nil slice: no header may be produced /
@@ -208,6 +208,9 @@ func runOne(t *testing.T, rep *ev.Report, prop, header string, ref Ref, set stri
 	})
 	if res.Panic != nil {
 		rep.HarnessError("%s: panic %v\n%s", desc, res.Panic, res.Stack)
+	}
+	if res.Hang != "" {
+		rep.Violate(map[string]any{"kind": "hang"}, map[string]any{"hang": res.Hang}, "the exchange never completed: %s", res.Hang)
 	}
 }
 
